@@ -60,7 +60,17 @@ MetaTree == {[path |-> <<n>>, dir |-> FALSE] : n \in MetaNames}
 MetaPats == SetToSeq({<<p>> : p \in {q \in StringsUpTo(MetaAlphabet \cup {STAR}, 1, IF Tier = "quick" THEN 3 ELSE 4) : ~AllStar(q) \/ Len(q) = 1}})
 FlatPats == SetToSeq({<<p>> : p \in Patterns})
 DeepPatSeq == SetToSeq(DeepPats)
-ASSUME ndJsonSerialize(OutFile, <<Case(1, FlatTree, FlatPats), Case(2, DeepTree, DeepPatSeq), Case(3, MetaTree, MetaPats)>>)
+(* the same directory listed again after it changed (files removed, files   *)
+(* and a sub-directory added): the list is a function of the tree as it is   *)
+(* NOW - nothing may be remembered from an earlier listing                   *)
+Removed == {e \in DeepTree : ~e.dir /\ e.path[Len(e.path)] = <<Bb, DOT, A>>}
+Added == {[path |-> <<<<Bb>>, <<A, A>>>>, dir |-> FALSE], [path |-> <<<<A>>, <<Bb, A>>>>, dir |-> TRUE],
+          [path |-> <<<<A>>, <<Bb, A>>, <<A>>>>, dir |-> FALSE], [path |-> <<<<A, A, DOT, Bb>>>>, dir |-> FALSE],
+          [path |-> <<<<A>>, <<A, DOT, A>>>>, dir |-> FALSE]}
+DeepTree2 == (DeepTree \ Removed) \cup Added
+CaseAfter(id, prev, tree, pats) == [x \in DOMAIN Case(id, tree, pats) \cup {"after"} |-> IF x = "after" THEN prev ELSE Case(id, tree, pats)[x]]
+ASSUME ndJsonSerialize(OutFile, <<Case(1, FlatTree, FlatPats), Case(2, DeepTree, DeepPatSeq), Case(3, MetaTree, MetaPats),
+                                  CaseAfter(4, 2, DeepTree2, DeepPatSeq)>>)
 ASSUME PrintT(<<"patterns", Len(FlatPats), Len(DeepPatSeq), "names", Cardinality(Names)>>)
 
 (* properties of the definition itself                                      *)
